@@ -436,6 +436,38 @@ def check_errors():
     case("constant-input-different-constant-output", lambda m: connect(m, mk(csig_o, Const(1, 2)), mk(csig_i, Const(2, 2))), True)
     case("constant-input-varying-output", lambda m: connect(m, mk(csig_o, Signal(2)), mk(csig_i, Const(2, 2))), True)
 
+    # constants that are not hdl.Const objects: a plain integer, a member of a shaped enumeration, a layout constant -- as the
+    # input leaf and as the output leaf, equal and different, and against a varying output; in arrays too
+    from amaranth.lib import data as _data, enum as _aenum
+
+    class _K(_aenum.Enum, shape=2):
+        A = 0
+        B = 2
+    _L = _data.StructLayout({"x": 1, "y": 1})
+    esig_o, esig_i = Signature({"k": Out(_K)}), Signature({"k": In(_K)})
+    lsig_o, lsig_i = Signature({"k": Out(_L)}), Signature({"k": In(_L)})
+    asig_o, asig_i = Signature({"k": Out(2).array(2)}), Signature({"k": In(2).array(2)})
+    forms = [
+        ("int", csig_o, csig_i, 2, 3, lambda: Signal(2)),
+        ("enum-member", esig_o, esig_i, _K.B, _K.A, lambda: Signal(_K)),
+        ("layout-constant", lsig_o, lsig_i, _L.const({"x": 1, "y": 0}), _L.const({"x": 0, "y": 1}), lambda: Signal(_L)),
+        ("array-of-ints", asig_o, asig_i, [2, 3], [3, 3], lambda: [Signal(2), Signal(2)]),
+    ]
+    for label, so, si, same, other_v, var in forms:
+        case(f"constant-input[{label}]-equal-constant-output", lambda m, so=so, si=si, same=same: connect(m, mk(so, same), mk(si, same)), False)
+        case(f"constant-input[{label}]-different-constant-output", lambda m, so=so, si=si, same=same, other_v=other_v: connect(m, mk(so, other_v), mk(si, same)), True)
+        case(f"constant-input[{label}]-varying-output", lambda m, so=so, si=si, same=same, var=var: connect(m, mk(so, var()), mk(si, same)), True)
+
+        def _adds_nothing(m, so=so, si=si, same=same):
+            connect(m, mk(so, same), mk(si, same))
+        mm = Module()
+        try:
+            _adds_nothing(mm)
+            n_st = len(Fragment.get(mm, None).statements.get("comb", []))
+        except Exception as e:
+            n_st = repr(e)[:200]
+        obs.append(_closed(f"errors::constant-input[{label}]-is-never-driven", n_st == 0, {"statements added / exception": n_st, "form": label}))
+
     def const_not_driven(m):
         connect(m, mk(csig_o, Const(2, 2)), mk(csig_i, Const(2, 2)), mk(csig_i, Signal(2, name="sink")))
     m = Module()
